@@ -91,6 +91,8 @@ def eval_contract(contract, names, pre_args, post_args, res, max_rows=8, only=No
         setattr(F.g, gname, sort(gname + "!rt") if callable(sort) else z3.Const(gname + "!rt", sort))
     reqs = list(contract.requires(F))
     defs = list(contract.ghost_defs(F)) + list(contract.post_defs(F))
+    if type(contract).call_defs is not __import__("skv.contract", fromlist=["Contract"]).Contract.call_defs:
+        defs += [d for d in contract.call_defs(F)]
     ens = [(n_, f_) for n_, f_ in contract.ensures(F)]
     s = z3.Solver()
     s.set("timeout", 20000)
